@@ -465,14 +465,51 @@ def run(ctx):
             cm = canon(orig, norm_nodes(rm)) if rm else b
             if cm != cpost:
                 disagreements.append({"input": req, "pre_graph": g, "impl": cpost, "model": cm})
-    ctx.log("disagreements=%d impl-oracle-failures=%d unsupported=%d schema answers=%r" % (len(disagreements), len(impl_fail), unsupported, sdist))
+    # compiled-code stage: "... so the types have finite size and compile". The accepted schema documents are emitted and
+    # handed to rustc (tools/batch.py). E0072 (infinite size) is the property's own failure; E0055 on a cycle made of
+    # newtypes only is the listed finding; other codes belong to C01 (duplicate names, ...) and are counted only.
+    comp = {"built": 0, "ok": 0, "E0072": 0, "E0055_alias": 0, "other": 0}
+    try:
+        from batch import Batch
+        lim = 400 if ctx.tier == "thorough" else 60
+        pick = [(req, a) for req, a in zip(schemas, sans) if parse_answer(a) is not None][:lim]
+        b = Batch(ctx, shards=12, assertions=False, ops=(), verbose=False)
+        bc = [b.add_case([{"root": req["schema"]}], {}, tag="c07:%d" % i) for i, (req, _) in enumerate(pick)]
+        b.prepare(); b.build()
+        for (req, a), c in zip(pick, bc):
+            if c.skipped or c.dump is None: continue
+            comp["built"] += 1
+            if c.compiled: comp["ok"] += 1; continue
+            codes = {e.get("code") for e in c.rustc_errors}
+            if "E0072" in codes:
+                comp["E0072"] += 1
+                impl_fail.append((req, "rustc", ("infinite_size", "rustc E0072 on the generated types: " + "; ".join(e.get("message", "")[:160] for e in c.rustc_errors[:3]))))
+            elif codes == {"E0055"}:
+                comp["E0055_alias"] += 1
+                fd = next((f for f in findings if f["id"] == "C07-alias-cycle-deref"), None)
+                if fd is None: impl_fail.append((req, "rustc", ("does_not_compile", "rustc E0055 (endless auto-deref chain)")))
+            else: comp["other"] += 1
+    except Exception as e:
+        ctx.notes.append("compile stage unavailable: %r" % (e,))
+    ctx.log("disagreements=%d impl-oracle-failures=%d unsupported=%d schema answers=%r compiled=%r" % (len(disagreements), len(impl_fail), unsupported, sdist, comp))
     # model-side search (the same oracle on the model's answers) when something is broken
     broken = list(st["broken"])
     if disagreements:
         broken.append("correspondence c07: model and implementation disagree on %d inputs" % len(disagreements))
     new_fail = []; known_hit = {}
     for req, a, f in impl_fail:
-        new_fail.append((req, a, f))          # no known findings are listed for C07
+        new_fail.append((req, a, f))
+    if comp["E0055_alias"]: known_hit["C07-alias-cycle-deref"] = comp["E0055_alias"]
+    for fd in findings:
+        # the canonical witness is compiled on every run
+        try:
+            from batch import Batch
+            wb = Batch("C07_witness", assertions=False, ops=(), verbose=False)
+            wc = wb.add_case(fd["witness"]["calls"], fd["witness"].get("settings", {})); wb.prepare(); wb.build()
+            if wc.dump is not None and not wc.compiled and {e.get("code") for e in wc.rustc_errors} == set(fd.get("codes", [])): vlib.known(ctx, fd)
+            else: ctx.notes.append("known finding %s no longer reproduces on its witness" % fd["id"])
+        except Exception as e:
+            ctx.notes.append("witness of %s could not be compiled: %r" % (fd["id"], e))
     seen_k = set()
     for req, a, (clause, det) in new_fail:
         if clause in seen_k: continue
@@ -501,14 +538,14 @@ def run(ctx):
         "model_disagreements": len(disagreements),
         "impl_oracle_failures_new": len(new_fail), "impl_oracle_failures_known": known_hit,
         "out_of_model_domain": unsupported,
-        "schema_answers": sdist,
+        "schema_answers": sdist, "compiled_schema_cases": comp,
         "exhaustive": False,
     }
     vlib.write_evidence(ctx, "proof", cov, [
         "the recursive depth-first model Cycles.visit and the Rust stack machine in break_cycles compute the same graph (tied by the correspondence on the generated cases, not by proof)",
         "the abstraction of TypeEntryDetails to kind + ordered ids (Cycles.Node) keeps every field break_cycles reads; get_child_ids order is compared through the hook dump",
         "type_to_id holds at most one Box entry per target (true of assign_type); graphs violating it are answered `unsupported` by the model",
-        "rustc accepts a set of type definitions as finitely sized iff every containment cycle passes through Box/Vec/Map/Set (not re-checked by this slice; E0072 is exercised by the C01 slice)",
+        "rustc accepts a set of type definitions as finitely sized iff every containment cycle passes through Box/Vec/Map/Set: exercised by compiling the accepted schema cases (coverage.compiled_schema_cases); compile errors other than E0072/E0055 are C01's subject and only counted",
         "the clause 'values of the recursive types still round-trip' (Box transparent for serde) is part of the Serde model, not of this slice",
     ])
 
